@@ -134,7 +134,7 @@ def lockstep(res, rule, body, start_blocks, direction, accept, what, fixed=None,
             continue
         # at most once: no reorg call of this view reachable again from after one
         twice = False
-        for bb in blocks:
+        for bb in (blocks if view != "flag" else ()):     # writing the flag again with the same constant changes nothing
             nxt = body.term(bb).get("t")
             if nxt is not None and blocks & body.reachable(nxt):
                 twice = True
